@@ -166,10 +166,10 @@ class CSSImportRule(cssrule.CSSRule):
             def _ident(expected, seq, token, tokenizer=None):
                 # medialist ending with ; which is checked upon too
                 if expected.startswith('media'):
+                    # incl. found token, may be "(" which needs to be counted
                     mediatokens = self._tokensupto2(
-                        tokenizer, importmediaqueryendonly=True
+                        tokenizer, starttoken=token, importmediaqueryendonly=True
                     )
-                    mediatokens.insert(0, token)  # push found token
 
                     last = mediatokens.pop()  # retrieve ;
                     lastval, lasttyp = self._tokenvalue(last), self._type(last)
@@ -208,6 +208,9 @@ class CSSImportRule(cssrule.CSSRule):
                 val = self._tokenvalue(token)
                 if expected.endswith(';') and ';' == val:
                     return 'EOF'
+                elif expected.startswith('media') and '(' == val:
+                    # medialist starting with an expression: (min-width: 10px)
+                    return _ident(expected, seq, token, tokenizer)
                 else:
                     new['wellformed'] = False
                     self._log.error('CSSImportRule: Unexpected char.', token)
